@@ -105,6 +105,7 @@ func runC02(p *Prog, r *Report) {
 
 	c02R6(p, r)
 	mustAssignRule(p, r, "C02.R7")
+	matchesGates(p, r, "C02.R8", "builder.(*List).Matches")
 }
 
 // c02R2: guarded dereference.
